@@ -16,7 +16,7 @@ def install(kind=Str, prop=Str, text=Str):
         {"_instantiation_property_str": Str, "_disable_comments": Bool, "_is_inverse": Bool, "_frequency_serializer": FreqSer})
     Statement = schema("Statement", [ST, CHOICE],
         {"_st_property": prop, "_st_type": Opt(kind), "_cardinality": Card, "_n_occurences": Int, "_probability": Real,
-         "_serializer_object": Opt(StSer), "_comments": List(text), "_is_inverse": Bool, "_st_types": List(kind)},
+         "_serializer_object": Opt(StSer), "_comments": List(text), "_is_inverse": Bool, "_st_types": List(Opt(kind))},
         invariant=["implies(has_class(self, 'Statement'), self._st_type is not None)",
                    "implies(is_int(self._cardinality), card_val(self._cardinality) >= 1)"])
     Shape = schema("Shape", ["shexer.model.shape:Shape"],
